@@ -61,9 +61,9 @@ func drawDeviate(t *rapid.T, x *yref.XNode, mark func() string, allowNotSupporte
 			return &ymodel.Deviate{Kind: "replace", Type: &ymodel.TypeRef{Name: rapid.SampledFrom([]string{"string", "uint16", "boolean", "int64"}).Draw(t, "new-type")}}
 		})
 		if x.Units == "" {
-			add("add-units", func() *ymodel.Deviate { return &ymodel.Deviate{Kind: "add", Units: mark()} })
+			add("add-units", func() *ymodel.Deviate { return &ymodel.Deviate{Kind: "add", Units: "u" + mark()} })
 		} else {
-			add("replace-units", func() *ymodel.Deviate { return &ymodel.Deviate{Kind: "replace", Units: mark()} })
+			add("replace-units", func() *ymodel.Deviate { return &ymodel.Deviate{Kind: "replace", Units: "u" + mark()} })
 		}
 	}
 	if isLL {
@@ -122,7 +122,13 @@ type DevOpts struct {
 func AddDeviations(t *rapid.T, set *ymodel.Set, o DevOpts) map[string]int {
 	labels := map[string]int{}
 	mk := 0
-	mark := func() string { mk++; return fmt.Sprintf("dv%d", mk) }
+	mark := func() string {
+		mk++
+		if rapid.IntRange(0, 7).Draw(t, "empty-string-value") == 0 {
+			return "" // the empty string is a value like any other
+		}
+		return fmt.Sprintf("dv%d", mk)
+	}
 	devPaths := map[string][]string{}             // deviating module -> target paths
 	touched := map[*yref.XNode]map[string]bool{} // node -> deviating modules that deviate it
 	othersTouch := func(x *yref.XNode, self string) bool {
@@ -159,6 +165,17 @@ func AddDeviations(t *rapid.T, set *ymodel.Set, o DevOpts) map[string]int {
 		d := NewDeviatingModule(set, fmt.Sprintf("dev%d", mi+1))
 		// the new module has its own (empty) tree
 		trees[d.Name] = &yref.Tree{Module: d.Name, Root: &yref.XNode{Name: d.Name, Kind: "module", NS: d.Name, Children: map[string]*yref.XNode{}}}
+		// sometimes the deviations are written in a submodule of the deviating module
+		holder := d
+		if rapid.IntRange(0, 3).Draw(t, "deviations-in-submodule") == 0 {
+			sub := &ymodel.Module{Name: d.Name + "-sub", IsSub: true, BelongsTo: d.Name, Prefix: d.Prefix, Imports: append([]ymodel.Import(nil), d.Imports...)}
+			d.Includes = append(d.Includes, sub.Name)
+			// submodules come before their module in the set (printing order is irrelevant)
+			set.Modules = append(set.Modules, sub)
+			trees[sub.Name] = &yref.Tree{Module: sub.Name, Root: &yref.XNode{Name: sub.Name, Kind: "module", NS: d.Name, Children: map[string]*yref.XNode{}}}
+			holder = sub
+			labels["deviation/in-submodule"]++
+		}
 		n := rapid.IntRange(1, o.Max).Draw(t, "deviations")
 		for i := 0; i < n; i++ {
 			var cands []Target
@@ -231,7 +248,7 @@ func AddDeviations(t *rapid.T, set *ymodel.Set, o DevOpts) map[string]int {
 			}
 			touched[tg.Node][d.Name] = true
 			devPaths[d.Name] = append(devPaths[d.Name], tg.Path)
-			d.Deviations = append(d.Deviations, dev)
+			holder.Deviations = append(holder.Deviations, dev)
 		}
 	}
 	return labels
